@@ -33,9 +33,14 @@ func (s *Syncer) parallelSync(ctx context.Context, cs consensus.State, headers [
 		err    error
 	}
 
-	// divide headers among requests, max 100 blocks per request
-	const blocksPerReq = 100
-	reqs := make([]Req, (len(headers)+blocksPerReq-1)/blocksPerReq)
+	// divide headers among requests, max 100 blocks per request. Peers serve at
+	// most MaxSendBlocks blocks per request and a short response is rejected, so
+	// never request more than our own limit.
+	blocksPerReq := uint64(100)
+	if n := s.config.MaxSendBlocks; n > 0 && n < blocksPerReq {
+		blocksPerReq = n
+	}
+	reqs := make([]Req, (uint64(len(headers))+blocksPerReq-1)/blocksPerReq)
 	for i := range reqs {
 		off := uint64(i) * blocksPerReq
 		numBlocks := min(blocksPerReq, uint64(len(headers[off:])))
